@@ -18,7 +18,10 @@ LEVEL_TEXT = ("Proved for the model, all n >= 1, all t < 2^n, over any field wit
               "t // 2^(q+1); the ctrl_state string on out_gate_ctrl holds exactly on the labels that agree with t off the target "
               "wire). PARTIAL: C12_ucge_simplify_partial (every control reported by _repetition_search is one along which the "
               "operator list is periodic, so the multiplexer does not read it; the re-indexing of the filtered list by the kept "
-              "controls is tied, not proved). Tied per level to the real classes (bit_target, controls, operator kind and 2x2 "
+              "controls is tied, not proved) - superseded by the FULL C12_ucge_simplify / C12_ucge_simplify_level: for every list of "
+              "length 2^m at tree_level m+1 <= n, size_required = m and new_mux[gather(ctrl_qc, k)] = mux[k] for every control value k "
+              "(closed form of _repetition_search, rank lemma of the filtered list, periodicity), so the simplified gate acts as the "
+              "original multiplexer on every label; also for the plan of every level of the model's loop. Tied per level to the real classes (bit_target, controls, operator kind and 2x2 "
               "entries, parents, r_gate, ctrl_state string and wires, dont_carry / kept indices / kept controls, the list handed "
               "to UCGate, children after _apply_diagonal incl. the UCGE spreading of the diagonal) for all t, n<=4 quick / <=5 "
               "thorough over nine vector families, and str_target/ctrl_state tables for all t, n<=6/8. The property itself is "
@@ -28,7 +31,8 @@ LEVEL_NOTE = ("Trusted: Lean kernel; qiskit UCGate(up_to_diagonal=True) and _get
               "zero tests / np.allclose modelled as exact predicates; model-code agreement beyond the explored sizes.")
 LEAN_TARGETS = ["QclibModel.Props.C12"]
 THEOREMS = ["Qclib.C12_level", "Qclib.C12_level_norms", "Qclib.C12_column_t", "Qclib.C12_preserve",
-            "Qclib.C12_preserve_ctrl", "Qclib.C12_ucge_simplify_partial"]
+            "Qclib.C12_preserve_ctrl", "Qclib.C12_ucge_simplify_partial", "Qclib.C12_ucge_simplify",
+            "Qclib.C12_ucge_simplify_level"]
 TRUSTED = [
     "qiskit UCGate(up_to_diagonal=True): Diag(_get_diagonal()) * circuit = block-diagonal multiplexer, target = first qubit, "
     "control j = bit j of the entry index (validated numerically on every tie case with more than one entry)",
